@@ -182,7 +182,7 @@ def _matching_instances(pattern: str, s: SymStr, fn):
             if x not in pool:
                 pool.append(x)
         for l in lits:
-            for cand in (l, l + sample(a, 1), l.lower()):
+            for cand in (l, l + sample(a, 1), l.lower(), sample(a, 1) + l, " " + l, "#" + l, " " + l + " x"):
                 if cand not in pool and accepts(L, list(cand)):
                     pool.append(cand)
         pools.append(pool[:6])
